@@ -363,7 +363,11 @@ func (h *Handler) handleCopyMove(w http.ResponseWriter, r *http.Request) (status
 	if dst == "" {
 		return http.StatusBadGateway, errInvalidDestination
 	}
-	if dst == src {
+	// Compare canonical paths: "/a/", "/a/." and "//a" all name "/a". A destination
+	// that is the source itself or one of its ancestors would have the source
+	// removed by the overwrite of the destination before it is copied or moved.
+	src, dst = slashClean(src), slashClean(dst)
+	if dst == src || dst == "/" || strings.HasPrefix(src, dst+"/") {
 		return http.StatusForbidden, errDestinationEqualsSource
 	}
 
